@@ -674,8 +674,14 @@ func isOptionalField(t types.Type, i int) bool {
 		return false
 	}
 	switch f.Name() {
-	case "Cursor", "cursor", "Module", "outer":
+	case "Cursor", "cursor", "Module":
 		return true
+	}
+	// the link of a scope to its enclosing scope (nil at the root)
+	if nt, ok := t.(*types.Named); ok && nt.Obj().Name() == "Env" {
+		if p, ok := f.Type().(*types.Pointer); ok && types.Identical(p.Elem(), nt) {
+			return true
+		}
 	}
 	return false
 }
@@ -828,6 +834,29 @@ func (a *Audit) auditFuncOnce(fn *ssa.Function) {
 								why = "a pointer that may be nil is boxed as the position carrier of an error: GetPosition calls a value-receiver method through it and panics"
 							}
 							a.site(fn, "carrier", canonVal(a.e, mi.X), instrPos(in), !mayNil, why)
+						}
+					}
+				}
+				// a method of reflect.Type called on reflect.TypeOf(x): TypeOf answers the nil Type for a nil interface
+				if c.IsInvoke() {
+					if tc, ok := c.Value.(*ssa.Call); ok {
+						if sc := tc.Call.StaticCallee(); sc != nil && sc.Name() == "TypeOf" && sc.Object() != nil && sc.Object().Pkg() != nil && sc.Object().Pkg().Path() == "reflect" {
+							x := tc.Call.Args[0]
+							switch y := x.(type) {
+							case *ssa.ChangeType:
+								x = y.X
+							case *ssa.ChangeInterface:
+								x = y.X
+							}
+							if _, boxed := x.(*ssa.MakeInterface); !boxed {
+								okNN := a.e.nonNilFact(x, b) || a.e.nonNilFact(tc.Call.Args[0], b)
+								if !okNN {
+									if ts := a.e.typeSetOf(x, b, map[ssa.Value]bool{}, 0); !ts.unknown && !ts.hasNil {
+										okNN = true
+									}
+								}
+								a.site(fn, "invoke", "TypeOf("+canonVal(a.e, x)+")."+c.Method.Name(), instrPos(in), okNN, map[bool]string{true: "the operand is known to be non-nil", false: "reflect.TypeOf of a nil interface value is the nil reflect.Type: calling a method on it panics, and a lisp value may be nil here"}[okNN])
+							}
 						}
 					}
 				}
